@@ -222,6 +222,8 @@ public:
 	void phase(const std::string& p) { phase(p.c_str()); }
 
 	void count(const std::string& k, long n = 1) { counters_[k] += n; }
+	// a further execution judged inside the current case (e.g. the same object again after in-place modification)
+	void extraEvaluation() { ++evaluations_; }
 	long counter(const std::string& k) const { auto it = counters_.find(k); return it == counters_.end() ? 0 : it->second; }
 
 	// The current case is non-trivial by the property's rule; h identifies it.
